@@ -2,6 +2,37 @@
 
 package services
 
+import (
+	"context"
+	"fmt"
+	"time"
+
+	"go.6river.tech/mmmbbb/ent"
+)
+
 // VerifHttpPusher returns the push manager service (the component that starts
 // one HTTP pusher per push subscription) so the harness can run it in process.
 func VerifHttpPusher() Service { return &httpPusher{} }
+
+// VerifPruneRunner returns the run-once function of a fresh instance of the
+// production prune service registered under that name (same action builder,
+// Initialize as the service runner does it), so that the harness runs a
+// background job through the service's own transaction wrapper and - like the
+// real service - on ONE action instance that is reused for every run.
+// minAge must be > 0 (ApplyDefaults turns 0 into one hour).
+func VerifPruneRunner(ctx context.Context, name string, client *ent.Client, minAge time.Duration, maxDelete int) (func(context.Context) (int, error), error) {
+	for _, s := range defaultServices {
+		ps, ok := s.(*pruneService)
+		if !ok || ps.name != name {
+			continue
+		}
+		n := pruneServiceFor(ps.name, ps.actionbuilder)
+		n.settings.MinAge = minAge
+		n.settings.MaxDelete = maxDelete
+		if err := n.Initialize(ctx, client); err != nil {
+			return nil, err
+		}
+		return n.runOnce, nil
+	}
+	return nil, fmt.Errorf("no prune service %q", name)
+}
